@@ -89,3 +89,9 @@ M("c08-condition-default-lock-fast-acquire", "C08", SYNC, "Condition.__init__", 
 M("c08-lock-fast-acquire-default-true", "C08", SYNC, "Lock.__new__", "    def __new__(cls, *, fast_acquire: bool = False) -> Lock:", "    def __new__(cls, *, fast_acquire: bool = True) -> Lock:", ["R08-e"])
 M("c08-adapter-stores-inverted-flag", "C08", SYNC, "LockAdapter.__init__", "        self._fast_acquire = fast_acquire", "        self._fast_acquire = not fast_acquire", ["R08-e"])
 N("c08-n-functools-lock-flag-local", "C08", "functools.py", "AsyncLRUCacheWrapper.__call__", "    async def __call__(self, *args: P.args, **kwargs: P.kwargs) -> T:\n", "    async def __call__(self, *args: P.args, **kwargs: P.kwargs) -> T:\n        assert isinstance(self._always_checkpoint, bool)\n")
+
+# from seeded changes C08/i, C08/j (round 5)
+M("c08-memory-stream-anext-shortcut", "C08", MEM, "MemoryObjectReceiveStream.receive_nowait",
+  "    def receive_nowait(self) -> T_co:",
+  "    async def __anext__(self) -> T_co:\n        try:\n            return self.receive_nowait()\n        except WouldBlock:\n            return await super().__anext__()\n        except EndOfStream:\n            raise StopAsyncIteration from None\n\n    def receive_nowait(self) -> T_co:", ["R08-f"])
+M("c08-future-await-fails-fast", "C08", "_core/_futures.py", "Future.__await__", "        yield from self.wait().__await__()\n", "        if self._cancelled:\n            raise FutureCancelled(\"the future was cancelled\")\n\n        yield from self.wait().__await__()\n", ["R08-f"])
